@@ -12,7 +12,7 @@ namespace Sif.Bank
 
 /-- result of a handler step: an error returned (with its class) or a Go panic; both discard the tx -/
 inductive Cls where
-  | validate | wl | val | final | dup | auth | paused | ethaddr | funds | ctype | other
+  | validate | wl | val | final | dup | auth | paused | ethaddr | funds | ctype | pegged | native | other
   deriving DecidableEq, Repr
 
 inductive Fail where
@@ -25,7 +25,7 @@ abbrev R := Except Fail
 def Cls.toString : Cls → String
   | .validate => "err.validate" | .wl => "err.wl" | .val => "err.val" | .final => "err.final"
   | .dup => "err.dup" | .auth => "err.auth" | .paused => "err.paused" | .ethaddr => "err.ethaddr"
-  | .funds => "err.funds" | .ctype => "err.ctype" | .other => "err"
+  | .funds => "err.funds" | .ctype => "err.ctype" | .pegged => "err.pegged" | .native => "err.native" | .other => "err"
 
 def Fail.toString : Fail → String
   | .err c => c.toString
